@@ -317,6 +317,12 @@ def _internal_stringify_boolean(
     if isinstance(node, boolean.OrRestriction):
         visit("|| (")
         iterable = node.restrictions
+    elif isinstance(node, boolean.JustOneRestriction):
+        visit("^^ (")
+        iterable = node.restrictions
+    elif isinstance(node, boolean.AtMostOneOfRestriction):
+        visit("?? (")
+        iterable = node.restrictions
     elif isinstance(node, boolean.AndRestriction) and not isinstance(node, atom):
         visit("(")
         iterable = node.restrictions
